@@ -4,9 +4,17 @@
 set -u
 patch=$1; shift
 ids=${@:-C01 C02 C03 C04 C05 C06 C07 C08 C09 C10 C11 C12 C13 C14 C15 C16 C17 C18}
-cd /repo && git status --porcelain | grep -v '^??' | grep . && { echo "repo not clean"; exit 2; }
 rm -rf /verif/build/evidence.keep; cp -r /verif/evidence /verif/build/evidence.keep
-git -C /repo apply "$patch" || { echo "patch does not apply"; exit 2; }
+if [ -n "${SEED_PRIVATE:-}" ]; then
+  # /repo is being read by a long background check: run against a private copy of /repo with the change applied instead
+  priv=/tmp/refacrepo-$$; rm -rf $priv; mkdir -p $priv
+  rsync -a --exclude target --exclude .git /repo/ $priv/
+  ( cd $priv && patch -p1 -s < "$patch" ) || { echo "patch does not apply to the copy of /repo"; exit 2; }
+  export VERIF_REPO=$priv
+else
+  cd /repo && git status --porcelain | grep -v '^??' | grep . && { echo "repo not clean"; exit 2; }
+  git -C /repo apply "$patch" || { echo "patch does not apply"; exit 2; }
+fi
 for id in $ids; do
   ( cd /verif && timeout 1800 python3 tools/check.py "$id" 2>&1 | grep -E "VIOLATION|^C[0-9]+ " | cut -c1-220 )
   for n in 1 2 3; do f=/verif/evidence/replay/$id-$n.json; [ -f $f ] && python3 -c "
@@ -17,5 +25,5 @@ e=json.load(open('/verif/evidence/$id.json')); st=e['coverage'].get('source_tabl
 bad={k:(v.get('status'), v.get('proof','')[:30], v.get('reason','')[:80]) for k,v in st.items() if v.get('status')!='ok' or 'generic' in v.get('proof','')}
 if bad: print('      translators:', bad)"
 done
-git -C /repo checkout -- .
+if [ -n "${SEED_PRIVATE:-}" ]; then rm -rf $priv /verif/build/harness-alt; else git -C /repo checkout -- .; fi
 rm -rf /verif/evidence; mv /verif/build/evidence.keep /verif/evidence
